@@ -87,11 +87,16 @@ def has_x(j) -> bool:
 _ADDR = re.compile(r" at 0x[0-9a-f]+>")
 
 
+def _hashy_text(t: str) -> bool:
+    """`str()` of an object with an address, or of a set / dict-free brace literal (element order = hash order)"""
+    return " at 0x" in t or "set(" in t or (t.startswith("{") and t.endswith("}") and ":" not in t)
+
+
 def _text_canon(t: str) -> str:
     """texts produced by `str()` of an object with an address or of a set (hash order): addresses masked, and for set texts
     the characters sorted (the same elements in another order give the same form)"""
     t = _ADDR.sub(" at 0x>", t)
-    if "set(" in t:
+    if "set(" in t or t.startswith("{"):
         return "".join(sorted(t))
     return t
 
@@ -99,11 +104,13 @@ def _text_canon(t: str) -> str:
 def canon(j):
     """order-insensitive form: set elements sorted, data-class instance fields sorted by key; object addresses masked"""
     if isinstance(j, dict):
-        if "s" in j and (" at 0x" in j["s"] or "set(" in j["s"]):
+        if "s" in j and _hashy_text(j["s"]):
             return dict(j, s=_text_canon(j["s"]))
-        if "b" in j and ("206174203078" in j["b"] or "73657428" in j["b"]):      # " at 0x" / "set(" inside the bytes
+        if "b" in j and len(j["b"]) < 4000:
             try:
-                return dict(j, b=_text_canon(bytes.fromhex(j["b"]).decode("latin-1")).encode("latin-1").hex())
+                t = bytes.fromhex(j["b"]).decode("latin-1")
+                if _hashy_text(t):
+                    return dict(j, b=_text_canon(t).encode("latin-1").hex())
             except Exception:
                 return j
         if "q" in j:
